@@ -17,4 +17,19 @@ def nGroups : Nat := 12
 def writeOrder {α} (key : α → Nat) (n : Nat) (ls : List α) : List α :=
   (List.range n).flatMap (fun g => ls.filter (fun x => key x == g))
 
+def standard : List String := ["#", "H", "S", "L", "C", "E", "P", "O", "U", "G", "F"]
+
+/-- the custom record types of a document, in order of first appearance (`custom_record_keys`: the keys of the
+    record dictionary in insertion order) -/
+def customKeys (rts : List String) : List String := (rts.filter (fun r => !standard.contains r)).eraseDups
+
+/-- group of a record type in a given document: custom records are written type after type, in order of first appearance -/
+def groupIn (rts : List String) (rt : String) : Nat :=
+  if standard.contains rt then groupOf rt else 11 + (customKeys rts).idxOf rt
+
+def nGroupsIn (rts : List String) : Nat := 12 + (customKeys rts).length
+
+/-- `Gfa.lines` as record types -/
+def docOrder (rts : List String) : List String := writeOrder (groupIn rts) (nGroupsIn rts) rts
+
 end Gfa.Doc
